@@ -9,7 +9,7 @@ ID = "C06"
 LEVEL = "fault_enumeration"
 ENGINE = "E2 detgrid"
 TECHNIQUE = ("Hypothesis-generated grids (1-12 servers: ok, read-only, full before/after announcing, failing allocate / n-th write / close, disconnecting, late) x pre-existing "
-             "shares x (k, happy, N) x delivery schedules on the real Uploader; success oracle = independent maximum matching over (reported shares + shares the "
+             "shares (incl. one share number on several read-only servers) x (k, happy, N) x delivery schedules on the real Uploader; success oracle = independent maximum matching over (reported shares + shares the "
              "servers told the uploader about) + on-disk completeness of every reported share; failure oracle = error class when the threshold is unreachable + no incomplete share visible to readers")
 RULE = ("each case: 1-12 servers each with a drawn behaviour, (k<=4, N<=8, happy<=N), a file of 1-3 segments; optionally an earlier honest upload of the same file whose shares "
         "are kept on a drawn subset of servers (pre-existing shares, also on read-only/full servers); then the upload under test from a fresh client under a drawn schedule. "
